@@ -31,6 +31,7 @@ type harnessSpec struct {
 	Switches  int      `json:"switches"`
 	MaxSteps  int64    `json:"max_steps"`
 	About     string   `json:"about"`
+	OnlyTier  string   `json:"only_tier"` // run this entry only in the named tier
 }
 
 type checkSpec struct {
@@ -276,6 +277,9 @@ func check(args []string) int {
 		if *only != "" && h.Func != *only {
 			continue
 		}
+		if h.OnlyTier != "" && h.OnlyTier != *tier {
+			continue
+		}
 		f := e.FindFunc(h.Pkg, h.Func)
 		if f == nil {
 			inconclusive = append(inconclusive, "harness not found: "+h.Pkg+"."+h.Func)
@@ -397,7 +401,11 @@ func check(args []string) int {
 	}
 	writeEvidence(id, *tier, seed, spec, hruns, e, time.Since(start).Seconds(), violations, note)
 	if exit == 0 {
-		fmt.Printf("OK property=%s tier=%s: all obligations discharged within the stated bounds\n", id, *tier)
+		if len(knownPrinted) > 0 {
+			fmt.Printf("OK property=%s tier=%s: no violation other than the %d known finding(s) listed above; all other obligations discharged within the stated bounds\n", id, *tier, len(knownPrinted))
+		} else {
+			fmt.Printf("OK property=%s tier=%s: all obligations discharged within the stated bounds\n", id, *tier)
+		}
 	}
 	return exit
 }
